@@ -1,10 +1,94 @@
 use crate::Args;
 
+pub mod c01;
+pub mod c02;
+pub mod c03;
+pub mod c04;
+pub mod c05;
+pub mod c06;
+pub mod c07;
+pub mod c08;
+pub mod c09;
+pub mod c10;
+pub mod c11;
+pub mod c12;
+pub mod c13;
+pub mod c14;
+pub mod c15;
+pub mod c16;
+pub mod c17;
+pub mod c18;
+pub mod c19;
+pub mod c20;
+pub mod c21;
+pub mod c22;
+pub mod c23;
+pub mod c24;
+pub mod c25;
+pub mod c26;
 pub mod c27;
+pub mod c28;
+pub mod c29;
+pub mod c30;
+pub mod c31;
+pub mod c32;
+pub mod c33;
+pub mod c34;
+pub mod c35;
+pub mod c36;
+pub mod c37;
+pub mod c38;
+pub mod c39;
+pub mod c40;
+pub mod c41;
+pub mod c42;
+pub mod c43;
 
 pub fn dispatch(a: &Args) -> i32 {
     match a.prop.as_str() {
+        "C01" => c01::run(a),
+        "C02" => c02::run(a),
+        "C03" => c03::run(a),
+        "C04" => c04::run(a),
+        "C05" => c05::run(a),
+        "C06" => c06::run(a),
+        "C07" => c07::run(a),
+        "C08" => c08::run(a),
+        "C09" => c09::run(a),
+        "C10" => c10::run(a),
+        "C11" => c11::run(a),
+        "C12" => c12::run(a),
+        "C13" => c13::run(a),
+        "C14" => c14::run(a),
+        "C15" => c15::run(a),
+        "C16" => c16::run(a),
+        "C17" => c17::run(a),
+        "C18" => c18::run(a),
+        "C19" => c19::run(a),
+        "C20" => c20::run(a),
+        "C21" => c21::run(a),
+        "C22" => c22::run(a),
+        "C23" => c23::run(a),
+        "C24" => c24::run(a),
+        "C25" => c25::run(a),
+        "C26" => c26::run(a),
         "C27" => c27::run(a),
+        "C28" => c28::run(a),
+        "C29" => c29::run(a),
+        "C30" => c30::run(a),
+        "C31" => c31::run(a),
+        "C32" => c32::run(a),
+        "C33" => c33::run(a),
+        "C34" => c34::run(a),
+        "C35" => c35::run(a),
+        "C36" => c36::run(a),
+        "C37" => c37::run(a),
+        "C38" => c38::run(a),
+        "C39" => c39::run(a),
+        "C40" => c40::run(a),
+        "C41" => c41::run(a),
+        "C42" => c42::run(a),
+        "C43" => c43::run(a),
         other => {
             eprintln!("unknown property/subcommand {}", other);
             2
